@@ -21,7 +21,7 @@ def main():
     for pid in ids:
         path = os.path.join(HERE, "vf", "props", pid.lower() + ".py")
         mod = None
-        if os.path.exists(path):
+        if os.path.exists(path) and pid in CLAIMED:
             mod = importlib.import_module("vf.props." + pid.lower())
         if mod is None or pid not in CLAIMED:
             na.append({"property_id": pid, "reason": getattr(mod, "NOT_CLAIMED_REASON", REASONS.get(pid, NOT_BUILT))})
